@@ -27,7 +27,7 @@
    Interp records every [set] on a frame whose map belongs to the caller
    (frame origin [OExternal]).  That an immutable [cfg] is the right model of
    the registry is a statement about the Go code: on the pinned tree
-   evalPrint APPENDS the obligatory directives to the shared
+   evalPrint APPENDED the obligatory directives to the shared
    PrintNode.Directives (ledger I5) -- a write to LRegistry by every render,
    modelled below as [pinned_print_prog] to show that the theory flags it; the
    model of the renderer describes the tree after that repair. *)
